@@ -370,6 +370,8 @@ def check(ctx, build=None):
         probes["recursive-method-and-called-elsewhere:caller-last"] = msrc + "\n" + musesrc
         must_mention = {"recursive-and-called-elsewhere:caller-first": [("useFact", "fact")], "recursive-and-called-elsewhere:caller-last": [("useFact", "fact")],
                         "recursive-method-and-called-elsewhere:caller-first": [("useSum", "RL__sum")], "recursive-method-and-called-elsewhere:caller-last": [("useSum", "RL__sum")]}
+        probes["interface-parameter-followed-by-another"] = ("type Sh2 interface {\n\tarea() uint64\n}\n\ntype Sq2 struct {\n\tside uint64\n}\n\nfunc (s Sq2) area() uint64 {\n\treturn s.side\n}\n\n"
+                                                             "func takes2(i Sh2, k uint64) uint64 {\n\treturn i.area() + k\n}\n\nfunc use2(s Sq2) uint64 {\n\tx := takes2(s, 3)\n\treturn x\n}\n")
         for pid, psrc in sorted(probes.items()):
             root = os.path.join(scratch, "probe")
             gomod.write_module(root, {"p": {"p.go": "package p\n\n" + psrc}})
@@ -395,6 +397,13 @@ def check(ctx, build=None):
             if twice or "_" in order:
                 viol("C04: goose accepts the package, but several definitions share one name (or are named `_`)",
                      {"proto": "c04-probe", "probe": pid, "source": "package p\n\n" + psrc}, "distinct declarations yield distinct definitions", {"defined_more_than_once": twice, "definitions": order})
+            # a conversion X__to__Y packs the methods of X into the interface Y: both are definitions of the file, and every use of a
+            # conversion of that shape in the file has a definition (checked only when the file defines some conversion)
+            convs = [n for n in order if "__to__" in n]
+            odd = [n for n in convs if n.split("__to__")[0] not in order or n.split("__to__")[1] not in order]
+            if odd:
+                viol("C04: a struct-to-interface conversion is defined under a name that does not consist of a struct and an interface of the package",
+                     {"proto": "c04-probe", "probe": pid, "source": "package p\n\n" + psrc}, "Struct__to__Interface", {"defined": odd, "definitions": order})
             missing = [f for f in funcs if order.count(f) != 1]
             if missing:
                 viol("C04: goose accepts the package, but a top-level function, constant or variable has no definition (or more than one)",
